@@ -1052,7 +1052,17 @@ func main() {
 						}
 					}
 
-					// TODO Periodic set
+					// Periodic set
+					for j, act := range sdrive.PerSet {
+						if j != 0 && i%j == 0 {
+							for k, val := range act {
+								*sdrive.Injectables[k] = val
+								if inIdx, ok := sdrive.NeedValid[k]; ok {
+									vm.InputsValid[inIdx] = true
+								}
+							}
+						}
+					}
 
 					if *emit_dot {
 						gvfile := bmach.Dot(conf, "", vm, pstatevm)
